@@ -8,8 +8,8 @@ replay = base.s_replay
 
 def run(tier):
     t = 300 if tier == "quick" else 900
-    jobs = [chrun.SJob("vlib.sh.c07", "c07", base.parts(42), t,
-                       what="remap_by_types on 14 call-site positions (static methods; signatures ending in *rest / **opts; call site in a lambda handed to Where by keyword inside the stream lambda; method of a class whose receiver is not called self; registered functions with a parameter called self; method on the result of a registered function whose own call is normalised, and inside a Select over a collection such a function returns; method on the event; method inside a Select lambda over Iterable[Jet]; second nested level with "
+    jobs = [chrun.SJob("vlib.sh.c07", "c07", base.parts(45), t,
+                       what="remap_by_types on 15 call-site positions (call site on the outer variable after a nested lambda that re-used its name for another class; static methods; signatures ending in *rest / **opts; call site in a lambda handed to Where by keyword inside the stream lambda; method of a class whose receiver is not called self; registered functions with a parameter called self; method on the result of a registered function whose own call is normalised, and inside a Select over a collection such a function returns; method on the event; method inside a Select lambda over Iterable[Jet]; second nested level with "
                             "the lambda parameter name re-used and a same-named method of another class whose parameters are named in another order; method inside a "
                             "Where lambda on a dictionary field of a previous Select; method of a registered collection class; func_adl_callable function at depth 0; "
                             "function inside a nested Where lambda) x signatures with 1..3 parameters; symbolic: number of declared defaults, number of positional "
@@ -20,7 +20,7 @@ def run(tier):
                        explanation="bounded symbolic execution (CrossHair/z3) of the type follower's call normalisation against Python's own signature binding",
                        functions=["func_adl.type_based_replacement.remap_by_types", "_fill_in_default_arguments", "_find_keyword", "fixup_ast_from_modifications",
                                   "type_transformer.process_method_call/process_function_call/process_method_call_on_stream_obj", "func_adl.object_stream.ObjectStream.Select/Where (nested)"],
-                       bounds={"parameters": [1, 3], "positions": 14, "values": "unbounded int", "defaults": "unbounded int", "keyword_permutations": "all"},
+                       bounds={"parameters": [1, 3], "positions": 15, "values": "unbounded int", "defaults": "unbounded int", "keyword_permutations": "all"},
                        extra_assumptions=["formatting of symbolic numbers / ast nodes into message text is stubbed (messages are not modelled)",
                                           "default values are transportable ints; non-literal defaults are only exercised through the library's own known_types={}"])
     return r.finish()
